@@ -8,7 +8,8 @@ Mirrors, line by line:
                         heart_beat_index = num_hb_to_do = 0; current_heart_beat = 0)
   set_heart_beat    -> `setHeartBeat`     (O_DESTRUCTED test, clamp to SHRT_MAX (fix: C11), removal with the
                         compensation of heart_beat_index / num_hb_to_do guarded by `if (num_hb_to_do)`, memmove,
-                        retune `(short)to` refused for to < 0, append with growth by HEART_BEAT_CHUNK, to < 0 -> 1)
+                        retune `(short)to` refused for to < 0, append with growth by HEART_BEAT_CHUNK, to < 0 -> 1;
+                        the memmove arguments and the new num_hb_objs are `NV.Gen.C11.rmMove`)
   query_heart_beat  -> `queryHeartBeat`
   f_set_heart_beat  -> `satEfun` then `setHeartBeat` on the current object
   error_handler     -> `errorHandler`     (set_heart_beat (current_heart_beat, 0); current_heart_beat = 0) and the
@@ -81,6 +82,12 @@ def idxOf (x : Nat) : List Entry → Option Nat
 
 def World.alive (w : World) (x : Nat) : Bool := w.known.contains x && !w.dead.contains x
 
+/-- `memmove (heart_beats + dst, heart_beats + src, cnt * sizeof (heart_beat_t))` under its guard, followed by the new
+    element count, on the list (`NV.Gen.C11.rmMove` gives dst, src, cnt, guard, count) -/
+def applyMove (l : List Entry) (m : Int × Int × Int × Bool × Int) : List Entry :=
+  (if m.2.2.2.1 then l.take m.1.toNat ++ (l.drop m.2.1.toNat).take m.2.2.1.toNat ++ l.drop (m.1.toNat + m.2.2.1.toNat)
+   else l).take m.2.2.2.2.toNat
+
 /-- src/backend.c set_heart_beat (ob, to).  The rewrite of `to` in front of the `!to` test, the compensation of
     heart_beat_index / num_hb_to_do on removal and what the append branch stores are the definitions regenerated
     from the source (`NV.Gen.C11.clampTo`, `rmCompensate`, `appendStore`) -/
@@ -93,7 +100,7 @@ def setHeartBeat (w : World) (ob : Nat) (to : Int) : World :=
       | none => w
       | some index =>
         let c := NV.Gen.C11.rmCompensate (index : Int) w.idx w.todo
-        { w with idx := c.1, todo := c.2, hbs := w.hbs.eraseIdx index }
+        { w with idx := c.1, todo := c.2, hbs := applyMove w.hbs (NV.Gen.C11.rmMove (index : Int) (w.hbs.length : Int)) }
     else if hasOb ob w.hbs then
       if to < 0 then w
       else
